@@ -207,14 +207,6 @@ def _execute(run, plan):
                     audited += n
                     probe('cache_datasets_audited', n)
                     continue
-                if failed_before:
-                    # after an I/O error a call may lose data or raise; it
-                    # must not return wrong data or poison the cache
-                    probe('degraded_after_fault:raised')
-                    n = iosim.audit_cache(sim, cfg, h5py, _glob, viol, opi)
-                    audited += n
-                    probe('cache_datasets_audited', n)
-                    continue
                 if exp['absent'] and (not exp['chosen'] or (
                         name == 'ValueError'
                         and site == 'read_ET_group_or_var')):
@@ -236,7 +228,6 @@ def _execute(run, plan):
                 fault('io_fault_fired')
                 fault('io_fault:' + fired['kind'])
                 probe('io_fault_swallowed')
-                failed_before = True
             if digest(kwargs) != before:
                 viol.append({'sig': 'args_mutated:read_data', 'op': opi,
                              'msg': f'op#{opi} read_data changed its '
@@ -275,15 +266,20 @@ def _execute(run, plan):
             if any(len(sim.truth.get((ev, i, op['rl']), [])) > 1
                    for _, ev in exp['comps'] for i in exp['exp_its']):
                 fault('overlap_iteration_served')
-            lossy = [] if failed_before else None
+            # only the call in which the error happened may have lost data
+            # (iterations() skips a restart it cannot read, for this call);
+            # every later call must be exactly right again
+            lossy = [] if fired is not None else None
             compared += iosim.check_returned(
                 sim, cfg, op, opi, got, exp, viol,
                 tag=':split' if op['split'] else ':nosplit', lossy=lossy)
             for what in sorted(set(lossy or [])):
-                probe('degraded_after_fault:' + what)
+                probe('degraded_in_faulted_call:' + what)
             if op['split']:
                 cached |= keyset
             last_split = op['split']
+            if fired is not None:
+                failed_before = True
             n = iosim.audit_cache(sim, cfg, h5py, _glob, viol, opi)
             audited += n
             probe('cache_datasets_audited', n)
